@@ -25,6 +25,30 @@ PROPS = {
         "rule": "queue cases: all (s,base,top,seq) with base,top<s, seq in 0..255, s in 2..8 (quick)/2..16 (thorough); scenarios: every drop/dup/none pattern over the first 4 (quick)/6 (thorough) data-phase packets client->server combined with patterns over the first 2/3 server->client packets, n in {1,2,3}; plus seeded random schedules n in {1,2,5,20,127,254} with bursts that wrap the sequence space; distinct = distinct scenario / queue tuple; non-trivial = at least one packet dropped or duplicated (scenarios), non-empty window (queue)",
         "assumptions": ["transport keeps per-direction order", "queue methods are atomic w.r.t. each other (C18)"],
     },
+    "C07": {
+        "title": "No bytes delivered by the untrusted relay can crash an endpoint",
+        "level": "proof",
+        "tests": [{"name": "TestC07"}],
+        "proofs": ["ModArith", "ProtoInv"],
+        "technique": "Lean 4 totality theorems over Outcome-valued mirrors of the repo's decoders and window bookkeeping (gbn_deserialize_no_panic, msgdata_deserialize_no_panic, processACK_total, processNACK_total, dataPhaseStep_total, adoptN_safe), instantiated on the DATA guard regenerated from /repo; tied to the real functions and to live endpoints by exhaustive/random differential runs under recover()",
+        "text": "Every Go index/slice/modulo that can panic in gbn.Deserialize, MsgData.Deserialize, queue.processACK/processNACK/addPacket, the receiver's sequence bump and setN is an explicit Outcome.panic in the model; the theorems show that for every byte string and every ACK/NACK/SYN value (all 256) one data-phase iteration is ok or 'connection fails', never panic, and keeps base, top, recvSeq inside the sequence space without growing the window. The guard the proof needs (DATA header >= 4 bytes) is re-extracted from /repo and re-checked by the kernel every run. Tie: decoders on all byte strings up to 2/3 bytes plus random; all (s,base,top,seq) for s<=8/16; all 256 SYN window values on a real server handshake; live endpoints in four window states fed ~1000 raw packets each.",
+        "note": "Proof covers the repo's own GBN/MsgData decoders and bookkeeping. Noise handshake/record parsing is covered by C16/C02 models (lengths) and exercised here only by search; the websocket JSON envelope (regexp, protojson, websocket, btcec parsing) is third-party code outside the model: that sub-claim rests on random search only.",
+        "design_ref": "DESIGN.md section 3, C07",
+        "rule": "cases: every byte string <=2 (quick)/<=3 (thorough) bytes through gbn.Deserialize and <=2 through MsgData.Deserialize, 9x12^2/12^3 edge strings, random garbage; all (s,base,top,seq) s<=8/16; SYN N for N=0..255; live endpoint x raw packet (type byte 0..7 x value x 4 shapes) x 4 window states; distinct = distinct input; non-trivial = decodes or reaches the bookkeeping",
+        "assumptions": ["Go int is 64 bits"],
+    },
+    "C09": {
+        "title": "GBN sender never exceeds its window; Send blocks only when it is full",
+        "level": "proof",
+        "tests": [{"name": "TestC09"}],
+        "proofs": ["ModArith", "ProtoInv", "ProtoStep"],
+        "technique": "Lean 4 corollaries of the Go-Back-N invariant (C09_window, C09_bounds, C09_room_enabled, C09_blocks_when_full, C09_first_n_free, C09_seqspace, C09_relay_values); queue mirror tied to queue.go exhaustively; blocking behaviour and window discipline of real connections checked under synctest and by trace inclusion",
+        "text": "For every n in 1..254 and every reachable state of the protocol model: T-B<=n, the code's size() equals T-B, base/top/recvSeq < s and n < s; a new packet is accepted iff fewer than n are outstanding (first n sends of a fresh connection need no ACK, the next is refused until the base moves); s=n+1 for n<=254 and the excluded point 255 gives s=0 (rejected by the handshake, C10). Relay-chosen ACK/NACK values keep the bookkeeping in range. Tie: queue differential as C01; for n in 1..254 real connections with ACKs withheld: exactly n Sends return, the next is durably blocked (synctest.Wait), one ACK frees exactly one; every new DATA packet emitted by real send loops under fault schedules must find room in the model's window (trace inclusion).",
+        "note": "'Send returns without waiting for the peer' is a runtime fact established by the synctest runs, not by the theorem. Assumes queue method atomicity (C18).",
+        "design_ref": "DESIGN.md section 3, C09",
+        "rule": "queue tuples as C01 plus 4000 random (s in 17..255); blocking scenario per n (quick: n<=24, multiples of 7, 250..254; thorough: all 1..254); C01 scenario family replayed (quick: a third); distinct = distinct tuple/scenario; non-trivial = non-empty window / all scenarios",
+        "assumptions": ["queue methods atomic (C18)"],
+    },
     "C14": {
         "title": "Message boundaries and contents survive chunking for every size",
         "level": "proof",
